@@ -105,7 +105,9 @@ impl ValidatorAddrsWatch {
 #[verifier::external_body] pub struct AtomicOrdering { _p: u8 }
 impl AtomicOrdering { #[verifier::external_body] pub fn seq_cst() -> Self { unimplemented!() } }
 impl AtomicUsize { #[verifier::external_body] pub fn fetch_add(&self, v: usize, o: AtomicOrdering) -> usize { unimplemented!() } }
+pub struct Config { pub max_block_size: usize, pub max_tx_size: usize }      // R-type: the size limits of gossip::Config
 pub struct Network {      // R-type: the members of gossip::Network the handlers use
+    pub cfg: Config,
     pub epoch_number: Option<EpochNumber>,
     pub engine_manager: EngineManager,
     pub validator_addrs: ValidatorAddrsWatch,
@@ -119,7 +121,7 @@ pub struct GetBlockResp(pub Option<Block>);                                   //
 
 
 def build(repo):
-    U = Unit("handlers", ["C19", "C18", "C08"], desc="gossip RPC handlers of one connection", uses=T.USES)
+    U = Unit("handlers", ["C19", "C18", "C08", "C10"], desc="gossip RPC handlers of one connection", uses=T.USES)
     U.repo = repo
     U.item(T.F_BLOCK, "struct BlockNumber", attrs=T.D_COPY)
     U.item(T.F_CONS, "struct EpochNumber", attrs=T.D_COPY)
@@ -182,6 +184,17 @@ impl PartialEqSpecImpl for BlockStoreState {
             exists|s: &Schedule| self.net.engine_manager.schedule_of(e) matches Some(l) && l.schedule == *s
                                  && #[trigger] offered(&self.net.validator_addrs, s, req.0@)),
 """)
+    # ---- request size limits (C10: "never buffers more than its configured limits"): the limit the RPC server passes to mux_recv_proto
+    U.fn(F_RUN, "impl rpc::Handler<rpc::push_tx::Rpc> for &PushServer<'_> :: fn max_req_size", name="max_req_size_push_tx",
+         wrap="impl<'a> PushServer<'a>", ret="r", props=["C10"],
+         spec="    ensures r == self.net.cfg.max_tx_size,      // a pushed transaction is buffered up to the CONFIGURED transaction size, nothing else\n")
+    for rpc_name in ("push_validator_addrs", "push_block_store_state"):
+        U.fn(F_RUN, "impl rpc::Handler<rpc::%s::Rpc> for &PushServer<'_> :: fn max_req_size" % rpc_name, name="max_req_size_" + rpc_name,
+             wrap="impl<'a> PushServer<'a>", ret="r", props=["C10"],
+             spec="    ensures true,      // a constant that does not depend on anything the peer sends; the obligation is that computing it cannot overflow\n")
+    U.fn(F_RUN, "impl rpc::Handler<rpc::get_block::Rpc> for &Network :: fn max_req_size", name="max_req_size_get_block",
+         wrap="impl Network", ret="r", props=["C10"],
+         spec="    ensures true,\n")
     U.fn(F_RUN, "impl rpc::Handler<rpc::get_block::Rpc> for &Network :: fn handle", name="handle_get_block", wrap="impl Network", ret="r", props=["C08", "C19"],
          header_subs=[("ctx::Ctx", "Ctx"), ("rpc::get_block::Req", "GetBlockReq"),
                       ("anyhow::Result<rpc::get_block::Resp>", "Result<GetBlockResp, AnyhowError>")],
